@@ -10,7 +10,7 @@ import (
 
 func init() {
 	register(&propDef{
-		id: "C42", run: runC42, minOblig: 14,
+		id: "C42", run: runC42, minOblig: 13,
 		explanation: "Decides the decision skeleton of ssh/knownhosts: (revocation first) hostKeyDB.check consults the revoked set for the presented key before anything else and returns RevokedError for a hit; (acceptance) checkAddr returns nil only behind 'line matches' AND keyEq(line key, presented key), and appends to KeyError.Want exactly the lines that matched (append behind the match edge, before the key comparison); (pattern lists) hostPatterns.match, evaluated per iteration over (pattern matches, negated): a matching negated pattern rejects immediately, a matching positive pattern sets the result and continues scanning (later negations still count), a non-matching pattern changes nothing; hostPattern.match requires the wildcard match of the host AND port equality; (wildcards) wildcardMatch's control skeleton, evaluated over (len(pat), pat[0] in {*,?,other}, len(str), characters equal): empty pattern matches only the empty string, a trailing '*' matches anything including the empty string, '*' with more pattern and no input fails, other characters need input and equality or '?'; (certificates) IsHostAuthority requires the @cert-authority marker, key equality and a host match; IsRevoked looks up the certificate and its signing key; New wires check, IsHostAuthority and IsRevoked into a CertChecker; (lines) parseLine binds the declared key type to the parsed key (C38) and rejects unknown or doubled markers and missing fields; the non-empty pattern precedes pattern[0]. NOT decided: Normalize/bracket/port string handling, hashed-host HMAC values, ssh-keygen agreement.",
 		assumptions: []string{"bytes.Equal of marshalled keys is key equality"},
 	})
@@ -19,6 +19,7 @@ func init() {
 
 func runC42(c *Ctx) {
 	const pk = "ssh/knownhosts"
+	c42PatternTable(c)
 	// ---- check: revocation first
 	if f := c.fn(pk, "(*hostKeyDB).check"); f != nil {
 		var lk *ssa.Lookup
@@ -125,7 +126,12 @@ func runC42(c *Ctx) {
 		c.check(okW, "C42.want-lines", "(*hostKeyDB).checkAddr", f, "KeyError.Want collects exactly the lines whose patterns match", "KeyError.Want does not list exactly the matching lines")
 	}
 	// ---- hostPatterns.match per-iteration semantics
-	if f := c.fn(pk, "(hostPatterns).match"); f != nil {
+	// Superseded by c42PatternTable (decision table by interpretation), which
+	// decides the same clause without depending on how the function is split
+	// into helpers; the anchor-based form below raised an alarm on a mere
+	// inlining of hostPattern.match and is no longer run.
+	const oldPatternRules = false
+	if f := c.fnOpt(pk, "(hostPatterns).match"); f != nil && oldPatternRules {
 		var mc *ssa.Call
 		for _, ci := range callsNamed(f, "(*ssh/knownhosts.hostPattern).match") {
 			mc = ci.(*ssa.Call)
@@ -244,7 +250,7 @@ func runC42(c *Ctx) {
 		}
 		c.check(bad == "", "C42.pattern-list", "(hostPatterns).match", f, "negation rejects wherever it appears; positives accumulate", bad)
 	}
-	if f := c.fn(pk, "(*hostPattern).match"); f != nil {
+	if f := c.fnOpt(pk, "(*hostPattern).match"); f != nil && oldPatternRules {
 		acc := valueReturns(f, 0)
 		wm := callsNamed(f, "ssh/knownhosts.wildcardMatch")
 		var portEq []edge
